@@ -74,6 +74,22 @@ func (c *monC17) After(m *Machine, s *Step) *Violation {
 		c.rejectedTokenSubmission = true
 		m.KB.secret(s.Secret, "token-typed")
 	}
+	// 1a. the replay-protection column may hold only what was typed into the TOTP *code* field of this request
+	for pid, u := range s.Post.Users {
+		pre := s.Pre.Users[pid]
+		if u.TOTPLastCode == pre.TOTPLastCode || len(u.TOTPLastCode) < 8 {
+			continue
+		}
+		typedAsCode := (s.Op.K == "totpvalidate" || s.Op.K == "totpremove" || s.Op.K == "totpconfirm") && !s.Op.F && s.Secret == u.TOTPLastCode
+		if typedAsCode {
+			continue
+		}
+		for sec, kind := range m.KB.Secrets {
+			if secretKinds[kind] && len(sec) >= 8 && strings.Contains(u.TOTPLastCode, sec) {
+				return violation("C17", "secret-in-storage:"+kind+":totp-last-code", "after %s the TOTP last-code column of %q holds the %s %q in clear text although it was not typed into the code field", s.Op.K, pid, kind, sec)
+			}
+		}
+	}
 	// 1. storage
 	for pid, u := range s.Post.Users {
 		pre, had := s.Pre.Users[pid]
